@@ -51,7 +51,9 @@ RULE = ('BFS over all event histories (alphabet B1 B2 C1 M MD F A S I R X XR K D
         'were never computed or come from the node counter" case')
 QUICK_BOUND = ('full alphabet (incl. the client builders C1 M MD): depth 6 with at most 2 held groups; alphabet without the client '
                'builders: depth 7 with at most 2 held groups; each on 18 configurations (tz1,tz2,tz3 x c0 in {0,126,2^32-2} x '
-               'sandboxed in {no,yes})')
+               'sandboxed in {no,yes}); the A event additionally called with options - autofill(fee, gas_limit, storage_limit) / '
+               'autofill(fee) / autofill(ttl, gas_reserve, burn_reserve) - on the 6 tz1 configurations, alphabet without the client '
+               'builders, depth 6 (thorough: 8)')
 THOROUGH_BOUND = ('full alphabet: depth 8 with at most 2 held groups and depth 6 with at most 3 held groups; alphabet without the '
                   'client builders: depth 9 with at most 2 held groups and depth 8 with at most 3 held groups; same 18 configurations')
 BOUND = {'quick': QUICK_BOUND, 'thorough': THOROUGH_BOUND}
@@ -254,7 +256,7 @@ class World:
             self._assign(sl, 'fill', sl.g.fill())
             return None
         if kind == 'A':
-            self._assign(sl, 'autofill', sl.g.autofill())
+            self._assign(sl, 'autofill', sl.g.autofill(**AUTOFILL_OPTS[self.cfg.get('opts', 'plain')]))
             return None
         if kind == 'S':
             sl.g = sl.g.sign()
@@ -378,7 +380,7 @@ CONFIGS = [{'curve': cv, 'c0': c0, 'sandboxed': sb} for cv in CURVES for c0 in (
 
 LANES = 16
 # measured transitions per shard (thousands), used only to spread the shards evenly over the runner's static lanes
-WEIGHT = {('client', 2, 6): 15, ('base', 2, 7): 7, ('client', 3, 6): 44, ('client', 2, 8): 148, ('base', 3, 8): 42, ('base', 2, 9): 47}
+WEIGHT = {('client', 2, 6): 15, ('base', 2, 7): 7, ('base', 2, 6): 3, ('base', 2, 8): 18, ('client', 3, 6): 44, ('client', 2, 8): 148, ('base', 3, 8): 42, ('base', 2, 9): 47}
 
 
 def balanced(specs):
@@ -410,20 +412,31 @@ def balanced(specs):
     return [lanes[k][row] for row in range(q + 1) for k in range(LANES) if row < len(lanes[k])]
 
 
+# how the A event calls autofill: the options a caller may pass must not change the counters it computes
+AUTOFILL_OPTS = {'plain': {},
+                 'limits': {'fee': 2000, 'gas_limit': 20000, 'storage_limit': 200},     # nothing left to estimate
+                 'fee': {'fee': 2000},
+                 'ttl': {'ttl': 30, 'gas_reserve': 7, 'burn_reserve': 3}}
+
+
 def shards(tier, seed):
-    def fam(alphabet, maxg, depth):
-        return [dict(cfg, alphabet=alphabet, maxg=maxg, depth=depth) for cfg in CONFIGS]
+    def fam(alphabet, maxg, depth, opts='plain', configs=None):
+        return [dict(cfg, alphabet=alphabet, maxg=maxg, depth=depth, opts=opts) for cfg in (configs or CONFIGS)]
+    tz1 = [c for c in CONFIGS if c['curve'] == CONFIGS[0]['curve']]
+    optfams = [x for o in ('limits', 'fee', 'ttl') for x in fam('base', 2, 6 if tier == 'quick' else 8, o, tz1)]
     if tier == 'quick':
-        return balanced(fam('client', 2, 6) + fam('base', 2, 7))
-    return balanced(fam('client', 3, 6) + fam('client', 2, 8) + fam('base', 3, 8) + fam('base', 2, 9))
+        return balanced(fam('client', 2, 6) + fam('base', 2, 7) + optfams)
+    return balanced(fam('client', 3, 6) + fam('client', 2, 8) + fam('base', 3, 8) + fam('base', 2, 9) + optfams)
 
 
 def cfg_key(cfg):
-    return (cfg['curve'], cfg['c0'], cfg['sandboxed'], cfg['maxg'], cfg.get('alphabet', 'client'))
+    return (cfg['curve'], cfg['c0'], cfg['sandboxed'], cfg['maxg'], cfg.get('alphabet', 'client'), cfg.get('opts', 'plain'))
 
 
 def run_shard(spec, tier):
     cfg = {k: spec[k] for k in ('curve', 'c0', 'sandboxed', 'maxg', 'alphabet')}
+    if spec.get('opts', 'plain') != 'plain':
+        cfg['opts'] = spec['opts']
     depth = spec['depth']
     ck = cfg_key(cfg)
     r = Result()
